@@ -1,11 +1,14 @@
 //! mon_store — monitors; dispatches on --prop.
 
+mod c29;
+
 use vcommon::Args;
 
 fn main() {
     vcommon::pool::install_panic_hook();
     let args = Args::parse();
     match args.prop.as_str() {
+        "C29" => c29::main(args),
         p => {
             eprintln!("mon_store: unknown property {p}");
             std::process::exit(2);
